@@ -1,5 +1,114 @@
+(* C01 — the encrypted packet layer delivers exactly the message stream that was sent.
+   Property statements only; every proof is `exact <lemma from Proofs/C01_proofs.v>`.
+   P : prims are the library primitives (cipher contexts, HMAC, AEAD, compression); their laws
+   prims_ok P cinv zinv are explicit premises (DESIGN.md section 5). *)
 From PV Require Import Bytes C01 C01_proofs.
 Open Scope Z_scope.
-Theorem C01_stub : True.
-Proof. exact stub_true. Qed.
-Print Assumptions C01_stub.
+
+(* one message, every framing mode (cleartext, classic, encrypt-then-MAC, AEAD), compression on or off:
+   the receiver keyed like the sender returns exactly the payload, consumes exactly the packet
+   (whatever follows it), and both sides stay keyed alike with the sequence number advanced mod 2^32 *)
+Theorem C01_roundtrip_message :
+  forall P cinv zinv, prims_ok P cinv zinv ->
+  forall s r data rnd w s',
+    sync cinv zinv s r -> data <> [] -> bytes_ok data = true -> bytes_ok rnd = true ->
+    send_message P s data rnd = Ok (w, s') ->
+    exists ev r',
+      (forall rest, read_message P (list Z) ftake r (w ++ rest) = Done (data, ev, r') rest) /\
+      sync cinv zinv s' r' /\ p_seq s' = (p_seq s + 1) mod 2 ^ 32 /\
+      (is_plain P (p_mode r) = false -> 0 < p_msz r -> ev <> EvNone).
+Proof. exact roundtrip1. Qed.
+Print Assumptions C01_roundtrip_message.
+
+(* whole sessions: any list of messages interleaved with key switches (any new mode, block size,
+   MAC size, compressor) and sequence-number resets: same order, same bytes, nothing left over *)
+Theorem C01_roundtrip :
+  forall P cinv zinv, prims_ok P cinv zinv ->
+  forall ops s r ws s',
+    sync cinv zinv s r -> ops_ok cinv zinv ops -> send_ops P s ops = Ok (ws, s') ->
+    forall rest, exists r',
+      recv_ops P r ops (concat ws ++ rest) = Some (payloads P ops, r', rest) /\ sync cinv zinv s' r'.
+Proof. exact roundtrip_ops. Qed.
+Print Assumptions C01_roundtrip.
+
+(* sender and receiver sequence numbers agree after every session *)
+Theorem C01_seqno :
+  forall P cinv zinv, prims_ok P cinv zinv ->
+  forall ops s r ws s',
+    sync cinv zinv s r -> ops_ok cinv zinv ops -> send_ops P s ops = Ok (ws, s') ->
+    exists r', recv_ops P r ops (concat ws) = Some (payloads P ops, r', []) /\
+               p_seq s' = p_seq r' /\ 0 <= p_seq r' < 2 ^ 32.
+Proof. exact seqno_agree. Qed.
+Print Assumptions C01_seqno.
+
+(* ... including the wrap 2^32 - 1 -> 0, which is only possible once initial_kex_done *)
+Theorem C01_seqno_wrap :
+  forall P cinv zinv s r data rnd w s',
+    sync cinv zinv s r -> data <> [] -> bytes_ok data = true -> bytes_ok rnd = true ->
+    send_message P s data rnd = Ok (w, s') ->
+    p_seq s' = (p_seq s + 1) mod 2 ^ 32 /\
+    (p_seq s = 2 ^ 32 - 1 -> p_seq s' = 0 /\ p_kex s = true).
+Proof. exact seqno_step. Qed.
+Print Assumptions C01_seqno_wrap.
+
+(* read_all over a socket that returns arbitrary non-empty pieces = taking n bytes of the stream *)
+Theorem C01_read_all :
+  forall sock n out, ne sock ->
+    match read_all n out sock with
+    | Some (x, sock') => exists y, x = out ++ y /\ ftake n (concat sock) = Some (y, concat sock') /\ ne sock'
+    | None => ftake n (concat sock) = None
+    end.
+Proof. exact read_all_spec. Qed.
+Print Assumptions C01_read_all.
+
+(* fragmentation independence: reading from any chunking of a byte stream (valid or not) gives
+   the messages, final result and state of reading the unfragmented stream *)
+Theorem C01_fragmentation :
+  forall P fuel (r : pstate P) (s : list (list Z)), ne s ->
+    let '(ps, evs, fi, rf, sf) := read_many P (list (list Z)) stake fuel r s in
+    read_many P (list Z) ftake fuel r (concat s) = (ps, evs, fi, rf, concat sf).
+Proof. exact chunked_equals_flat. Qed.
+Print Assumptions C01_fragmentation.
+
+Theorem C01_fragmentation_any_two :
+  forall P fuel (r : pstate P) (s1 s2 : list (list Z)),
+    ne s1 -> ne s2 -> concat s1 = concat s2 ->
+    let '(ps1, evs1, f1, r1, rest1) := read_many P (list (list Z)) stake fuel r s1 in
+    let '(ps2, evs2, f2, r2, rest2) := read_many P (list (list Z)) stake fuel r s2 in
+    ps1 = ps2 /\ f1 = f2 /\ r1 = r2 /\ concat rest1 = concat rest2.
+Proof. exact chunking_independent. Qed.
+Print Assumptions C01_fragmentation_any_two.
+
+(* a strict prefix of a packet blocks (NeedMore) *)
+Theorem C01_prefix_blocks :
+  forall P cinv zinv, prims_ok P cinv zinv ->
+  forall s r data rnd w s' q,
+    sync cinv zinv s r -> data <> [] -> bytes_ok data = true -> bytes_ok rnd = true ->
+    send_message P s data rnd = Ok (w, s') -> strict_prefix q w ->
+    read_message P (list Z) ftake r q = Need.
+Proof. exact prefix_blocks. Qed.
+Print Assumptions C01_prefix_blocks.
+
+(* the wire of k messages followed by a strict prefix q of the next packet (or nothing) yields exactly
+   the k messages, in order, then NeedMore with q unread: no loss, duplication or merging *)
+Theorem C01_complete_then_needmore :
+  forall P cinv zinv, prims_ok P cinv zinv ->
+  forall ops s r ws s' q,
+    sync cinv zinv s r -> ops_ok cinv zinv ops -> all_msgs P ops -> send_ops P s ops = Ok (ws, s') ->
+    (q = [] \/ exists p rnd w s'', p <> [] /\ bytes_ok p = true /\ bytes_ok rnd = true /\
+                                  send_message P s' p rnd = Ok (w, s'') /\ strict_prefix q w) ->
+    forall fuel, (length ops < fuel)%nat ->
+    exists evs r', read_many P (list Z) ftake fuel r (concat ws ++ q) = (payloads P ops, evs, FNeed, r', q) /\
+                   sync cinv zinv s' r'.
+Proof. exact read_many_prefix. Qed.
+Print Assumptions C01_complete_then_needmore.
+
+(* non-vacuity: the laws are satisfiable, and a concrete keyed pair is in sync in each mode *)
+Example C01_laws_satisfiable : prims_ok idP (fun _ _ _ => True) (fun _ _ => True).
+Proof. exact idP_ok. Qed.
+Example C01_sync_example :
+  sync (fun _ _ _ => True) (fun _ _ => True) (id_state (@Etm idP tt tt) 16 8) (id_state (@Etm idP tt tt) 16 8) /\
+  sync (fun _ _ _ => True) (fun _ _ => True) (id_state (@Aead idP tt [0;0;0;1;0;0;0;0;0;0;0;9]) 16 16)
+       (id_state (@Aead idP tt [0;0;0;1;0;0;0;0;0;0;0;9]) 16 16) /\
+  exists w s', send_message idP (id_state (@Classic idP tt tt) 8 8) [5; 1; 2; 3] [] = Ok (w, s').
+Proof. exact id_examples. Qed.
